@@ -1,5 +1,6 @@
 CONSTANTS
   NSlots = 12
+  Lean = FALSE
   Vocab = "single"
 INIT Init
 NEXT Next
